@@ -138,7 +138,8 @@ Deliver(kind, tg, x, b, data, uo) ==
 Invoke(kind, a, x, b, ctxeq) ==
   /\ dlv.st = "open" /\ dlv.tg \in acts /\ dlv.invs = <<>>
   /\ kind = dlv.kind /\ a = dlv.tg /\ x = dlv.xid /\ b = dlv.bid
-  /\ dlv.data = "captured" => ctxeq
+  \* data that cannot be decoded gives no licence to run the user's method on some other context
+  /\ dlv.data \in {"captured", "malformed"} => ctxeq
   /\ Det => dlv.data # "malformed"
   /\ dlv' = [dlv EXCEPT !.invs = Append(@, [kind |-> kind, a |-> a, xid |-> x, bid |-> b, ctxeq |-> ctxeq,
                                              out |-> dlv.uo])]
@@ -225,7 +226,7 @@ SameIds ==
               /\ dlv.invs[i].xid = dlv.xid /\ dlv.invs[i].bid = dlv.bid
 
 ContextEquivalent ==
-  InDlv => \A i \in 1..Len(dlv.invs) : dlv.data = "captured" => dlv.invs[i].ctxeq
+  InDlv => \A i \in 1..Len(dlv.invs) : dlv.data \in {"captured", "malformed"} => dlv.invs[i].ctxeq
 
 IsSuccess(s) == s \in {"committed", "rollbacked"}
 
